@@ -81,7 +81,8 @@ enum Rx {
 }
 
 pub struct MObjs {
-    tx: RefCell<Vec<Option<Tx>>>,
+    /// one cell per thread: a sender handle is only ever touched by its thread
+    tx: Vec<RefCell<Option<Tx>>>,
     rx: RefCell<Option<Rx>>,
 }
 
@@ -161,10 +162,10 @@ impl MM {
 pub struct MpscFam<const A: bool>;
 
 fn take_tx(o: &MObjs, t: usize) -> Tx {
-    o.tx.borrow_mut()[t].take().expect("sender op without handle")
+    o.tx[t].borrow_mut().take().expect("sender op without handle")
 }
 fn put_tx(o: &MObjs, t: usize, h: Tx) {
-    o.tx.borrow_mut()[t] = Some(h);
+    *o.tx[t].borrow_mut() = Some(h);
 }
 fn take_rx(o: &MObjs) -> Rx {
     o.rx.borrow_mut().take().expect("receiver op without receiver")
@@ -205,7 +206,7 @@ impl<const A: bool> Family for MpscFam<A> {
             }
         }
         MObjs {
-            tx: RefCell::new(tx),
+            tx: tx.into_iter().map(RefCell::new).collect(),
             rx: RefCell::new(Some(rx)),
         }
     }
@@ -313,12 +314,14 @@ impl<const A: bool> Family for MpscFam<A> {
         Box::pin(async move {
             match op {
                 MOp::Send(v) => {
-                    let h = take_tx(o, t);
-                    let r = match &h {
+                    // the handle stays in its cell: a task cancelled while it waits here must not drop
+                    // it (that would be a hidden DropTx)
+                    let g = o.tx[t].borrow();
+                    let r = match g.as_ref().expect("sender op without handle") {
                         Tx::B(s) => s.send(*v).await.is_ok(),
                         Tx::U(_) => panic!("async send on an unbounded channel"),
                     };
-                    put_tx(o, t, h);
+                    drop(g);
                     if r {
                         MRes::Ok
                     } else {
@@ -326,12 +329,12 @@ impl<const A: bool> Family for MpscFam<A> {
                     }
                 }
                 MOp::Recv => {
-                    let mut h = take_rx(o);
-                    let r = match &mut h {
+                    let mut g = o.rx.borrow_mut();
+                    let r = match g.as_mut().expect("receiver op without receiver") {
                         Rx::B(r) => r.recv().await,
                         Rx::U(r) => r.recv().await,
                     };
-                    put_rx(o, h);
+                    drop(g);
                     match r {
                         Some(v) => MRes::Val(v),
                         None => MRes::None,
@@ -352,6 +355,16 @@ impl<const A: bool> Family for MpscFam<A> {
 
     fn objects_of(_op: &MOp) -> Vec<u32> {
         vec![0xC00]
+    }
+    /// A cancelled sender leaves the queue; a slot it had been handed goes to the next in line.
+    /// (tokio: "if `send` is cancelled … the message was not sent"; "you lose your place".)
+    fn m_on_finish(m: &mut MM, t: usize) {
+        let tt = t as u8;
+        m.sendq.retain(|x| *x != tt);
+        if let Some(pos) = m.granted.iter().position(|x| *x == tt) {
+            m.granted.remove(pos);
+            m.give_back();
+        }
     }
 
     fn m_init(cfg: &MCfg, n: usize) -> MM {
@@ -694,6 +707,65 @@ pub fn program_set<const A: bool>(set: &str) -> Vec<Program<MpscFam<A>>> {
                 gen_shape(&Shape { cap, main_receives: false, rx_style: Style::Async, tx_style: Style::Async, senders: 1, ks: 2, kr: 2, max_size: 4, rich: false }, &mut out);
                 gen_shape(&Shape { cap, main_receives: false, rx_style: Style::Blocking, tx_style: Style::Blocking, senders: 2, ks: 2, kr: 2, max_size: 3, rich: false }, &mut out);
                 gen_shape(&Shape { cap, main_receives: true, rx_style: Style::Async, tx_style: Style::Blocking, senders: 2, ks: 1, kr: 2, max_size: 3, rich: false }, &mut out);
+            }
+        }
+        // cancellation: a task waiting in `recv` / `send` is aborted
+        let g = |ops: &[MOp]| -> Vec<GOp<MOp>> { ops.iter().cloned().map(GOp::Op).collect() };
+        for cap in [Some(1), None] {
+            let snd = |v: u8| if cap.is_some() { MOp::Send(v) } else { MOp::USend(v) };
+            // the receiver task is aborted; main takes over the receiver afterwards
+            for other in [vec![snd(21)], vec![snd(21), snd(22)], vec![MOp::DropTx], vec![]] {
+                for after in [vec![MOp::TryRecv], vec![MOp::Recv], vec![MOp::TryRecv, MOp::TryRecv]] {
+                    if !thorough && other.len() + after.len() > 2 {
+                        continue;
+                    }
+                    let mut main = vec![GOp::Spawn(1), GOp::Spawn(2), GOp::Abort(1), GOp::Join(1), GOp::Join(2)];
+                    main.extend(g(&after));
+                    out.push(Program {
+                        cfg: MCfg { cap, tx_threads: vec![2] },
+                        threads: vec![main, g(&[MOp::Recv]), g(&other)],
+                    });
+                }
+            }
+        }
+        // two senders waiting for a slot at the same time: first come, first served
+        for (s1, s2) in [(MOp::Send(11), MOp::Send(21)), (MOp::BlockingSend(11), MOp::Send(21)), (MOp::BlockingSend(11), MOp::BlockingSend(21))] {
+            for recvs in [vec![MOp::Recv, MOp::Recv], vec![MOp::Recv, MOp::TryRecv, MOp::Recv]] {
+                if !thorough && (recvs.len() > 2 || matches!(s2, MOp::BlockingSend(_))) {
+                    continue;
+                }
+                let mut main = vec![GOp::Op(MOp::TrySend(1)), GOp::Spawn(1), GOp::Spawn(2)];
+                main.extend(g(&recvs));
+                main.extend([GOp::Join(1), GOp::Join(2)]);
+                out.push(Program {
+                    cfg: MCfg { cap: Some(1), tx_threads: vec![0, 1, 2] },
+                    threads: vec![main, g(&[s1.clone()]), g(&[s2.clone()])],
+                });
+            }
+        }
+        // a sender waiting for a slot is aborted: the one behind it is served, nothing of it arrives
+        for victim in [vec![MOp::Send(11)], vec![MOp::Send(11), MOp::Send(12)]] {
+            for other in [vec![MOp::Send(21)], vec![MOp::TrySend(21)], vec![]] {
+                for recvs in [vec![MOp::Recv], vec![MOp::Recv, MOp::Recv], vec![MOp::Recv, MOp::TryRecv]] {
+                    if !thorough && victim.len() + other.len() + recvs.len() > 4 {
+                        continue;
+                    }
+                    let mut main = vec![GOp::Op(MOp::TrySend(1)), GOp::Spawn(1), GOp::Spawn(2), GOp::Abort(1), GOp::Join(1)];
+                    main.extend(g(&recvs));
+                    main.push(GOp::Join(2));
+                    out.push(Program {
+                        cfg: MCfg { cap: Some(1), tx_threads: vec![0, 1, 2] },
+                        threads: vec![main.clone(), g(&victim), g(&other)],
+                    });
+                    // the same with the receiving done by a third task while main aborts
+                    let main2 = vec![GOp::Op(MOp::TrySend(1)), GOp::Spawn(1), GOp::Spawn(2), GOp::Abort(1), GOp::Join(1), GOp::Join(2)];
+                    if other.is_empty() {
+                        out.push(Program {
+                            cfg: MCfg { cap: Some(1), tx_threads: vec![0, 1] },
+                            threads: vec![main2, g(&victim), g(&recvs)],
+                        });
+                    }
+                }
             }
         }
     } else {
